@@ -87,9 +87,12 @@ class CFG:
             pos = dq.popleft()
             if pos in seen:
                 continue
-            seen.add(pos)
             b, i = pos
             es = self.blocks[b]['e']
+            if i >= len(es) and blocked is not None and blocked(pos, None):
+                # a blocked block end is not 'passed' (and not recorded as visited)
+                continue
+            seen.add(pos)
             if i < len(es):
                 if blocked is not None and blocked(pos, es[i]):
                     continue
@@ -98,6 +101,8 @@ class CFG:
                 for s in self.succs(b):
                     if (b, s) in blocked_edges:
                         continue
+                    if s == self.exit:
+                        seen.add(('exit_from', b))
                     dq.append((s, 0))
         return seen
 
@@ -110,7 +115,7 @@ class CFG:
         seen = self.reach(start, blocked, blocked_edges)
         bad = []
         for p in self.pred[self.exit]:
-            if self.exit_kind(p) in kinds and (p, len(self.blocks[p]['e'])) in seen:
+            if self.exit_kind(p) in kinds and ('exit_from', p) in seen:
                 bad.append(p)
         return bad
 
@@ -165,7 +170,20 @@ class CFG:
         """blocks with a two-way conditional terminator: yields (block, cond node)"""
         for bid, b in self.blocks.items():
             if 'cond' in b and len(b['s']) == 2:
-                yield bid, self.func.node(b['cond'])
+                yield bid, self.effective_cond(bid)
+
+    def effective_cond(self, bid):
+        """the sub-expression whose value decides the branch of block bid: for the
+        block that evaluates the right operand of `a || b` / `a && b` clang
+        reports the whole logical expression; its value there is that of b"""
+        b = self.blocks[bid]
+        c = self.func.node(b['cond']) if 'cond' in b else None
+        from .facts import children, strip_all_casts
+        while c is not None and c.get('k') == 'BinaryOperator' and c.get('op') in ('||', '&&') \
+                and b.get('term') != c['id']:
+            kids = children(c)
+            c = strip_all_casts(kids[1]) if len(kids) == 2 else None
+        return c
 
     def loops(self):
         """natural loops: list of (header block, set of body blocks) via back edges"""
